@@ -631,6 +631,8 @@ func runC14(r *Run) {
 	}
 
 	// --- presence
+	r.checkPresenceTable(P)
+	r.checkFetchEveryReference(P)
 	r.checkPresenceGuard(P+".presence.coreproof", fns, "CoreProofFileURI", []string{"Recover", "Deactivate"}, "core proof file")
 	r.checkPresenceGuard(P+".presence.provisionalproof", fns, "ProvisionalProofFileURI", []string{"Update"}, "provisional proof file")
 	r.checkPresenceGuard(P+".presence.provisionalindex", fns, "ProvisionalIndexFileURI", []string{"Create", "Recover"}, "provisional index (and chunk) file")
@@ -664,6 +666,41 @@ func runC14(r *Run) {
 			}
 		}
 		r.R.Check(ok, P+".dups.detect", "E2: a value already seen is recorded as duplicate", core.FuncName(f), r.where(f), "-", "append under hit(seen, element)", "no such append")
+		// … and a value not seen before is entered into the seen set: on every iteration path that misses, the set is updated with the element
+		okRec, nMiss := true, 0
+		for _, head := range allLoopHeads(f) {
+			for _, ip := range loopIterationPaths(ff, head, 2000) {
+				if ip.Ret != nil {
+					continue
+				}
+				var seenMap ssa.Value
+				var key string
+				for _, fc := range rawPathFacts(ff, ip.Blocks) {
+					if fc.Kind == "miss" && fc.A != nil {
+						if mk, isMk := fc.A.Val.(*ssa.MakeMap); isMk {
+							seenMap, key = mk, fc.B.String()
+						}
+					}
+				}
+				if seenMap == nil {
+					continue
+				}
+				nMiss++
+				rec := false
+				for _, b := range ip.Blocks[:len(ip.Blocks)-1] {
+					for _, ins := range b.Instrs {
+						if mu, isMU := ins.(*ssa.MapUpdate); isMU && mu.Map == seenMap && ff.TB.Of(mu.Key).String() == key {
+							rec = true
+						}
+					}
+				}
+				if !rec {
+					okRec = false
+				}
+			}
+		}
+		r.R.Check(okRec && nMiss > 0, P+".dups.record", "E6 dual: a value that was not in the seen set is entered into it in the same iteration", core.FuncName(f), r.where(f),
+			"if values are never entered, no value is ever found to be a duplicate", fmt.Sprintf("%d missing-iteration path(s) record the value", nMiss), "an iteration that misses does not record the value")
 	}
 	if f := r.fn(P, pkgProvider, "OperationProvider.parseCoreIndexOperations"); f != nil {
 		r.requireEachSuccess(P+".dups.core", "all core index suffixes must be checked for duplicates", f, core.Ctx{},
@@ -997,4 +1034,220 @@ func (r *Run) validatingLoopInstances(f *ssa.Function, depth int) (int, []*ssa.F
 		}
 	}
 	return n, holders
+}
+
+// checkPresenceTable (C14, missing or superfluous references): the two
+// reference validators are evaluated over every combination of "count is zero
+// / positive" and "reference is empty / present" (E4-style abstract evaluation
+// of their branch conditions) and must reject exactly the prescribed
+// combinations. Whatever comes after the presence tests (URI length, per-entry
+// validation) is outside the table: reaching it counts as "not rejected here".
+func (r *Run) checkPresenceTable(P string) {
+	type spec struct {
+		fn     string
+		counts []string // field names of the count lists
+		uris   []string // field names of the references
+		reject func(c map[string]int64, u map[string]int64) bool
+	}
+	specs := []spec{
+		{"OperationProvider.validateCoreIndexFile", []string{"Create", "Recover", "Deactivate"}, []string{"ProvisionalIndexFileURI", "CoreProofFileURI"},
+			func(c, u map[string]int64) bool {
+				return (c["Create"]+c["Recover"] > 0 && u["ProvisionalIndexFileURI"] == 0) ||
+					(c["Recover"]+c["Deactivate"] > 0 && u["CoreProofFileURI"] == 0) ||
+					(c["Recover"]+c["Deactivate"] == 0 && u["CoreProofFileURI"] > 0)
+			}},
+		{"OperationProvider.validateProvisionalIndexFile", []string{"Update"}, []string{"ProvisionalProofFileURI"},
+			func(c, u map[string]int64) bool {
+				return (c["Update"] > 0 && u["ProvisionalProofFileURI"] == 0) || (c["Update"] == 0 && u["ProvisionalProofFileURI"] > 0)
+			}},
+	}
+	for _, sp := range specs {
+		f := r.fn(P, pkgProvider, sp.fn)
+		if f == nil {
+			continue
+		}
+		id := P + ".presence.table." + strings.TrimPrefix(sp.fn, "OperationProvider.")
+		rule := "E4 table: over all combinations of zero/positive counts and empty/present references, the validator rejects exactly: entries that need a file whose reference is empty, and a proof reference without entries that need it"
+		why := "a missing reference makes the reader drop or mis-assign operations; a superfluous one lets unreferenced content ride along with the batch"
+		ff := r.E.Facts(f, core.Ctx{})
+		fieldOf := func(v ssa.Value) string {
+			// the last field name on the access path of v (through loads)
+			t := ff.TB.Of(v)
+			for t != nil {
+				if t.Op == "field" {
+					return t.Name
+				}
+				if len(t.Args) == 0 {
+					return ""
+				}
+				t = t.Args[0]
+			}
+			return ""
+		}
+		ev := &scalarEval{fn: f}
+		ev.num = func(v ssa.Value, env scalarEnv) (int64, bool) {
+			if c, ok := v.(*ssa.Call); ok && isBuiltin(c, "len") {
+				fl := fieldOf(c.Common().Args[0])
+				if n, has := env.rank[fl]; has {
+					return int64(n), true
+				}
+			}
+			return 0, false
+		}
+		ev.name = func(v ssa.Value) (string, bool) {
+			if isZeroConst(v) {
+				return "0", true
+			}
+			fl := fieldOf(stripConv(v))
+			switch fl {
+			case "Operations":
+				return "Operations", true
+			}
+			for _, u := range sp.uris {
+				if fl == u {
+					return u, true
+				}
+			}
+			return "", false
+		}
+		good := true
+		var det []string
+		nEnv := 0
+		var combos func(i int, cur map[string]int)
+		names := append(append([]string{}, sp.counts...), sp.uris...)
+		names = append(names, "Operations")
+		combos = func(i int, cur map[string]int) {
+			if i < len(names) {
+				for v := 0; v <= 1; v++ {
+					cur[names[i]] = v
+					combos(i+1, cur)
+				}
+				return
+			}
+			env := scalarEnv{rank: map[string]int{"0": 0}}
+			for k, v := range cur {
+				env.rank[k] = v
+			}
+			// a nil operations object has no entries
+			if cur["Operations"] == 0 {
+				for _, c := range sp.counts {
+					if cur[c] != 0 {
+						return
+					}
+				}
+			}
+			nEnv++
+			ret, _, whyStop := ev.walk(env)
+			got := false
+			switch {
+			case ret != nil:
+				if c, ok := core.RetOp(ret, 0).(*ssa.Call); ok {
+					if sc := c.Common().StaticCallee(); sc != nil && (sc.String() == "errors.New" || sc.String() == "fmt.Errorf" || strings.HasSuffix(sc.String(), "errors.New") || strings.HasSuffix(sc.String(), "errors.Errorf")) {
+						got = true
+					}
+				}
+			case strings.HasPrefix(whyStop, "unsupported condition"):
+				// reached what follows the presence tests
+			default:
+				good = false
+				det = append(det, "cannot evaluate: "+whyStop)
+				return
+			}
+			c := map[string]int64{}
+			u := map[string]int64{}
+			for _, k := range sp.counts {
+				c[k] = int64(cur[k])
+			}
+			for _, k := range sp.uris {
+				u[k] = int64(cur[k])
+			}
+			if want := sp.reject(c, u); got != want && len(det) < 4 {
+				good = false
+				det = append(det, fmt.Sprintf("counts %v references %v: rejected=%v, prescribed %v", c, u, got, want))
+			}
+		}
+		combos(0, map[string]int{})
+		r.R.Count("E4 abstract environments evaluated", nEnv)
+		r.R.Check(good && nEnv >= 4, id, rule, core.FuncName(f), r.where(f), why, fmt.Sprintf("%d combinations agree with the table", nEnv), strings.Join(det, "; "))
+	}
+}
+
+// checkFetchEveryReference (C14/C13 reader): in getBatchFiles every file the
+// core index references is fetched and installed before the counts are
+// validated — the fetch is bypassed only across "reference is empty", and on a
+// path that fetched the provisional files all three of them are installed.
+func (r *Run) checkFetchEveryReference(P string) {
+	f := r.fn(P, pkgProvider, "OperationProvider.getBatchFiles")
+	if f == nil {
+		return
+	}
+	ff := r.E.Facts(f, core.Ctx{})
+	why := "a referenced file that is not fetched (or fetched and dropped) makes the reader return fewer operations than the anchor string announces, or dereference a missing file"
+	vcalls := r.callsIn(f, "validateBatchFileCounts")
+	if len(vcalls) != 1 {
+		r.R.Unk(P+".fetch", "anchor", core.FuncName(f), r.where(f), why, fmt.Sprintf("%d calls of validateBatchFileCounts", len(vcalls)))
+		return
+	}
+	vc := vcalls[0]
+	for _, g := range []struct{ getter, uri string }{{"OperationProvider.getCoreProofFile", "CoreProofFileURI"}, {"OperationProvider.getProvisionalFiles", "ProvisionalIndexFileURI"}} {
+		gcs := r.callsIn(f, g.getter)
+		id := P + ".fetch." + g.uri
+		if len(gcs) != 1 {
+			r.R.Bad(id, "E8: the referenced file is fetched", core.FuncName(f), r.where(f), why, fmt.Sprintf("%d calls of %s", len(gcs), g.getter))
+			continue
+		}
+		gc := gcs[0]
+		bypass := reachesAvoiding(ff, f.Blocks[0].Instrs[0], vc, func(a, b *ssa.BasicBlock) bool {
+			if b == gc.Block() {
+				return true
+			}
+			return r.factsImplyAny(ff.EdgeFacts(a, b), []string{"cmp($1." + g.uri + ` == "")`}, 1)
+		})
+		r.R.Check(!bypass, id, "E8: between entry and the count validation, fetching the file named by "+g.uri+" is bypassed only across "+g.uri+" = \"\"", core.FuncName(f), r.P.Pos(gc.Pos()), why,
+			"bypass only when the reference is empty", "the fetch can be bypassed although the reference is present")
+	}
+	// installation of the fetched provisional files
+	paths, complete := enumPaths(ff, 2000)
+	okInst := complete
+	nThrough := 0
+	pcs := r.callsIn(f, "OperationProvider.getProvisionalFiles")
+	for _, p := range paths {
+		through, reachesV := false, false
+		for _, b := range p {
+			if len(pcs) == 1 && b == pcs[0].Block() {
+				through = true
+			}
+			if b == vc.Block() {
+				reachesV = true
+			}
+		}
+		if !through || !reachesV {
+			continue
+		}
+		nThrough++
+		got := map[string]bool{}
+		for _, b := range p {
+			for _, ins := range b.Instrs {
+				st, ok := ins.(*ssa.Store)
+				if !ok {
+					continue
+				}
+				fa, ok := st.Addr.(*ssa.FieldAddr)
+				if !ok {
+					continue
+				}
+				vt := ff.TB.Of(st.Val).String()
+				if strings.Contains(vt, "getProvisionalFiles(") && strings.HasSuffix(vt, "."+fieldName(fa)) {
+					got[fieldName(fa)] = true
+				}
+			}
+		}
+		for _, want := range []string{"ProvisionalIndex", "ProvisionalProof", "Chunk"} {
+			if !got[want] {
+				okInst = false
+			}
+		}
+	}
+	r.R.Check(okInst && nThrough > 0, P+".fetch.install", "E5 field copies on paths: after the provisional files were fetched, ProvisionalIndex, ProvisionalProof and Chunk are each installed from the like-named fetched field before the counts are validated", core.FuncName(f), r.where(f), why,
+		fmt.Sprintf("%d paths through the fetch install all three", nThrough), "a path through the fetch does not install all of ProvisionalIndex, ProvisionalProof, Chunk")
 }
